@@ -1514,6 +1514,47 @@ theorem tot_offdiag_ones (M : ι → ι → ℝ) (h : ∀ x y, M x y = if x ≠ 
 
 end gencount
 
+-- ===== FIFTH BATCH: sums along a node sequence (`lemma_pathsum`, `lemma_pathsum_append`) =====
+-- The SMT `pathsum(M, p, k)` is uninterpreted; these are its defining equations for the intended reading
+-- `Σ_{t < k-1} M[p[t]][p[t+1]]` (k nodes, k-1 steps).  `p : ℕ → ι` is the integer-indexed node list (only `0 ≤ t < k` is looked at:
+-- `pathsum_congr`), `Store(p, k, v)` is `Function.update p k v`.  `ι` is an arbitrary type here (no finiteness needed; `ι = ℤ`
+-- is the untyped SMT reading where `M` is indexed by all integers).
+
+section pathsum
+open BigOperators Finset
+variable {ι : Type}
+
+noncomputable def pathsum (M : ι → ι → ℝ) (p : ℕ → ι) (k : ℕ) : ℝ := ∑ t ∈ Finset.range (k - 1), M (p t) (p (t + 1))
+
+/-- `lemma_pathsum`, first conjunct: a one-node path has sum 0 -/
+theorem pathsum_one (M : ι → ι → ℝ) (p : ℕ → ι) : pathsum M p 1 = 0 := by
+  simp [pathsum]
+
+/-- the sum only looks at the first `k` entries of the sequence -/
+theorem pathsum_congr (M : ι → ι → ℝ) (p p' : ℕ → ι) (k : ℕ) (h : ∀ t, t < k → p t = p' t) :
+    pathsum M p k = pathsum M p' k := by
+  unfold pathsum
+  apply Finset.sum_congr rfl
+  intro t ht
+  have ht' : t < k - 1 := Finset.mem_range.mp ht
+  rw [h t (by omega), h (t + 1) (by omega)]
+
+/-- `lemma_pathsum` second conjunct / `lemma_pathsum_append`:
+`k >= 1 → pathsum(M, Store(p, k, v), k+1) == pathsum(M, p, k) + M[p[k-1]][v]` -/
+theorem pathsum_append (M : ι → ι → ℝ) (p : ℕ → ι) (k : ℕ) (hk : 1 ≤ k) (v : ι) :
+    pathsum M (Function.update p k v) (k + 1) = pathsum M p k + M (p (k - 1)) v := by
+  obtain ⟨j, rfl⟩ : ∃ j, k = j + 1 := ⟨k - 1, by omega⟩
+  have hpre : pathsum M (Function.update p (j + 1) v) (j + 1) = pathsum M p (j + 1) :=
+    pathsum_congr M _ p (j + 1) (fun t ht => Function.update_of_ne (by omega) v p)
+  rw [← hpre]
+  unfold pathsum
+  simp only [Nat.add_sub_cancel]
+  rw [Finset.sum_range_succ]
+  have hj : Function.update p (j + 1) v j = p j := Function.update_of_ne (by omega) v p
+  rw [Function.update_self, hj]
+
+end pathsum
+
 -- NOT PROVED HERE: nothing was left out; every quantified fact of `spec_axioms()` and every `lemma_*` instance of
 -- engine/pyvc/core.py has a theorem above (see README.md for the table).  Three SMT axioms are not theorems but
 -- definitions / typing facts of this formalisation:
@@ -1530,5 +1571,6 @@ end gencount
 --  for `lemma_image_count`, `tot_add_transpose` for `lemma_tsum_plus_transpose`: all proved; `Fintype.card ι` is the SMT `n`, hence `n ≥ 0`.)
 -- (fourth batch, continued: `tot_indicator_of_injective_cells_witness` (where-index form of `lemma_image_count`), `tot_add` for
 --  `lemma_tsum_add`, `tot_int` for `lemma_tsum_int`, `tot_offdiag_ones` for `lemma_full_offdiag`: all proved.)
+-- (fifth batch: definition `pathsum`; `pathsum_one`, `pathsum_append` for `lemma_pathsum` / `lemma_pathsum_append`, `pathsum_congr`: all proved.)
 
 end VerifLemmas
